@@ -348,6 +348,19 @@ func (s *sink) stable(rs *runState) (bool, uint64) {
 			return false, rs.events
 		}
 	}
+	// a channel somebody is parked on and that has no acknowledged message at all is not in
+	// the map: its buffer must be empty too (a sender that has put its message into the buffer
+	// but has not yet reported back is not parked, whatever the table says)
+	for c := range snd {
+		if rs.pend[c] != len(c) {
+			return false, rs.events
+		}
+	}
+	for c := range rcv {
+		if rs.pend[c] != len(c) {
+			return false, rs.events
+		}
+	}
 	for _, n := range rs.cpend {
 		if n != 0 {
 			return false, rs.events
